@@ -25,7 +25,7 @@ func init() {
 		Rule: "aliasing (normal build): generated streams demultiplexed with NextPacket/NextData; every result is deep-copied at delivery and re-compared after each later call (last 16) and at the end, while a second " +
 			"Demuxer on another stream advances in lock-step, the GC recycles the sync.Pool, and the input buffer is finally overwritten; Muxer inputs (payload, descriptor bytes) snapshotted and re-compared " +
 			"after every call. Concurrency (-race build): N in {2,4,8,16,32,64} goroutines each owning a Demuxer or Muxer on its own stream, results compared with solo runs, race detector log scanned; " +
-			"plus 110 000..400 000 packet streams with payloads of every size, each packet kept for 8192 (thorough 70 000) further calls and compared with the stream bytes (stage alias-endurance); distinct = hash(stream(s), mode); non-trivial = ≥2 results snapshotted or ≥2 goroutines ran",
+			"plus 110 000..400 000 packet streams with payloads of every size, each packet kept for 8192 (thorough 70 000) further calls and compared with the stream bytes (stage alias-endurance); 2..4 Demuxers on readers of every kind called in turns, each compared with its solo run (demux-lockstep); units shorter than a start code after other instances have loaded the pooled buffers (tiny-units); Muxer alias sessions on a writer that runs out of room; distinct = hash(stream(s), mode); non-trivial = ≥2 results snapshotted or ≥2 goroutines ran",
 		Assumptions: []string{"the schedules are those the Go scheduler produced under Gosched/GC pressure; the number of observed goroutine switch points is reported and guarded",
 			"the Muxer is allowed to touch documented struct fields of MuxerData (StuffingLength, StreamID); only payload and descriptor bytes are protected"},
 		Shards:     16,
